@@ -74,6 +74,9 @@ def handwritten(tier_quick: bool):
         # a key listed both as included and as excluded: excluded wins
         dict(ops=[("all",)], init_cfgs=[I, C(3, 2), C(4, 4, 2)], K=2, needs_hist=(), chains=1,
              via_builder=True, included=("const", "p2"), excluded=("p2", "const")[:1]),
+        # the builder has already built (and run) another engine: the second engine starts from the configured schedule
+        dict(ops=[("next",), ("append", C(4, 4, 2)), ("all",)], init_cfgs=[I, C(1, 4), C(3, 2), C(4, 4, 2)], K=2,
+             needs_hist=(1,), chains=2, via_builder=True, prebuild=True),
         # first real epoch is posterior; J = 1; thinning that never keeps anything in a chunk
         dict(ops=[("append", I), ("append", C(4, 3, 3)), ("next",), ("next",), ("append", C(4, 2, 2)),
                   ("next",), ("append", C(4, 1)), ("all",)],
